@@ -212,3 +212,16 @@ func init() {
 		Runs: []Run{{Pkg: hp + "c13", Variant: "scaled16", Optional: true}, {Pkg: hp + "c13", Variant: "real"}},
 	}
 }
+
+func init() {
+	specs["C19"] = &Spec{
+		Title: "Encrypted SSH identity prompts only on a match and keeps no history",
+		Level: "model_checking",
+		LevelText: "Reference model: one bit per identity value (a successfully validated key is remembered). For four identity values (Ed25519 OpenSSH-encrypted and RSA legacy-PEM-encrypted, each with a key file that does / does not belong to the declared public key) every history of <= 3/4 Unwrap calls over 9 stanza lists (addressed to the declared key, to the stored key, same type with another tag, other types only, the matching stanza at each position among others, a malformed stanza of the type, empty) x passphrase answer {right, wrong, callback error} is executed on one real identity value; at every step the number of callback invocations must equal the model's and the result must equal the result of the same call on a fresh identity value.",
+		LevelNote: "histories are driven through Identity.Unwrap (what age.Decrypt calls); the encrypted OpenSSH fixtures use bcrypt rounds = 1 (accepted unmodified by the parser) to keep a prompt at 10 ms",
+		Technique: "explicit-state reference model (remembered bit) with exhaustive depth-bounded enumeration of call histories replayed on the implementation; differential against fresh instances",
+		Rule: "states = (identity kind, remembered) pairs visited; transitions = calls executed; traces_validated_against_impl = histories executed on the real identity value and compared step by step",
+		Assumptions: commonAssume,
+		Runs: []Run{{Pkg: hp + "c19", Variant: "real"}},
+	}
+}
